@@ -283,7 +283,7 @@ def run(tier, seed):
         shapes = [(m, n) for m in range(1, 5) for n in range(1, 5)]
         shapes64 = [(2, 3), (3, 3), (4, 2)]
     else:
-        shapes = [(m, n) for m in range(1, 6) for n in range(1, 6)] + [(6, 4), (4, 6), (6, 3), (3, 6), (6, 5), (5, 6)]
+        shapes = [(m, n) for m in range(1, 6) for n in range(1, 6) if m * n <= 20] + [(6, 3), (3, 6), (6, 2), (2, 6)]
         shapes64 = [(m, n) for m in range(1, 5) for n in range(1, 5)]
     ck.bounds += ["every binary matrix of every shape in %s with nominal dtype int8 (all entries symbolic)" % (shapes,),
                   "shapes %s additionally with nominal dtype int64 (other branch of rref_and_basis_change)" % (shapes64,),
